@@ -207,8 +207,11 @@ Proof.
   apply Z.leb_le. destruct H as [_ [H6 _]]. assumption.
 Qed.
 
+(* a field name the parser accepts: a top-level name or, from Standards
+   Version 7 on, parent/subfield *)
 Definition name_ok (c : wctx) (n : bstring) : Prop :=
-  no_nul n /\ valid_name (rctx_of c) n = true.
+  no_nul n /\ valid_field (rctx_of c) n = true.
+Definition top_name (c : wctx) (n : bstring) : Prop := is_meta (rctx_of c) n = false.
 (* an input field code that is written and read verbatim: not one of the
    ambiguous one-character codes, no leading dot *)
 Definition code_ok (c : wctx) (s : bstring) : Prop :=
@@ -293,12 +296,12 @@ Proof.
 Qed.
 
 Theorem raw_roundtrip c name t v :
-  ctx_ok c -> name_ok c name -> type_ok c t -> 1 <= v < 2 ^ 32 ->
+  ctx_ok c -> name_ok c name -> top_name c name -> type_ok c t -> 1 <= v < 2 ^ 32 ->
   parse_line (rctx_of c) (print_entry c (ERaw name t (SLit v))) = Some (ERaw name t (SLit v)).
 Proof.
-  intros Hc [Hn Hv] Ht Hr.
+  intros Hc [Hn Hv] Htop Ht Hr. unfold top_name in Htop.
   rewrite (parse_print c _ [name; B"RAW"; type_name t; print_Z v]); [| assumption | | toks_tac].
-  - unfold parse_spec. rewrite Hv. cbn [negb]. change (bstring_eqb (B "RAW") (B "RAW")) with true. cbv iota.
+  - unfold parse_spec. rewrite Hv. cbn [negb]. change (bstring_eqb (B "RAW") (B "RAW")) with true. cbv iota. rewrite Htop.
     rewrite Ht. rewrite set_unsigned_lit by lia. cbn [lit_lt].
     replace (v <=? 0) with false by (symmetry; apply Z.leb_gt; lia). reflexivity.
   - unfold entry_items, in_word, int_word, cplx_word; cbn [entry_name].
